@@ -195,7 +195,7 @@ class TextWriter:
         opcode = instruction.opcode
         args = instruction.args
         if ".load" in opcode or ".store" in opcode:
-            align, offset = args
+            align, offset, *lane = args
             args = []
             if offset:
                 args.append(f"offset={offset:d}")
@@ -203,7 +203,7 @@ class TextWriter:
             if align != default_alignment(opcode):
                 args.append(f"align={2**align:d}")
 
-            args = tuple(args)
+            args = tuple(args) + tuple(lane)
 
         elif opcode == "br_table":
             tab = args[0]
